@@ -37,25 +37,38 @@ TimedTaskScheduler::~TimedTaskScheduler() {
 }
 
 void TimedTaskScheduler::kickOffTask(std::shared_ptr<detail::TimedTaskImpl> next, double curTime) {
-  DISPENSO_VERIF_POINT("TtKickFetchSub", next.get());
-  size_t remaining = next->timesToRun.fetch_sub(1, std::memory_order_acq_rel);
-  if (remaining == 1) {
-    auto* np = next.get();
-    DISPENSO_VERIF_POINT("TtKickCall", np);
-    np->func(std::move(next));
-  } else if (remaining > 1) {
-    DISPENSO_VERIF_POINT("TtKickCall", next.get());
-    next->func(next);
+  // Count this kick-off as "in progress" for as long as it may examine or call next->func.
+  // ~TimedTask() cancels the task, waits for inProgress to reach zero and then destroys func; a
+  // wrapper whose function returned false destroys func only if nothing else is in progress.  So
+  // either they observe this increment and leave func alone until we are done with it, or we
+  // observe their cancellation below and never touch func (these accesses are seq_cst on both
+  // sides).  Without this, func could be destroyed between the decision to call it and the
+  // increment of inProgress inside it.
+  DISPENSO_VERIF_POINT("TtKickGuard", next.get());
+  next->inProgress.fetch_add(1, std::memory_order_seq_cst);
+  DISPENSO_VERIF_POINT("TtKickLoadFlags", next.get());
+  if (!(next->flags.load(std::memory_order_seq_cst) & detail::kFFlagsCancelled)) {
+    DISPENSO_VERIF_POINT("TtKickFetchSub", next.get());
+    size_t remaining = next->timesToRun.fetch_sub(1, std::memory_order_acq_rel);
+    if (remaining == 1) {
+      DISPENSO_VERIF_POINT("TtKickCall", next.get());
+      next->func(next);
+    } else if (remaining > 1) {
+      DISPENSO_VERIF_POINT("TtKickCall", next.get());
+      next->func(next);
 
-    DISPENSO_VERIF_POINT("TtKickRearm", next.get());
-    if (next->steady) {
-      next->nextAbsTime += next->period;
-    } else {
-      next->nextAbsTime = curTime + next->period;
+      DISPENSO_VERIF_POINT("TtKickRearm", next.get());
+      if (next->steady) {
+        next->nextAbsTime += next->period;
+      } else {
+        next->nextAbsTime = curTime + next->period;
+      }
+      std::lock_guard<std::mutex> lk(queueMutex_);
+      tasks_.push(next);
     }
-    std::lock_guard<std::mutex> lk(queueMutex_);
-    tasks_.push(std::move(next));
   }
+  DISPENSO_VERIF_POINT("TtKickUnguard", next.get());
+  next->inProgress.fetch_sub(1, std::memory_order_release);
 }
 
 constexpr double kSmallTimeBuffer = 10e-6;
